@@ -7,11 +7,12 @@ PROP = dict(
         level_text=("Monitored executions of the real parser: 240k (quick) / 3M (thorough) generated documents (grammar-directed for the "
                     "active format, mutated, or random bytes; names/values across 255 and 65535 bytes; nesting to depth 60) x format "
                     "strings (the five ctest ones, layout::file_format, further delimiter sets of the four families, PRNG-built) x name "
-                    "flag sets, driven through mpt_parse_config, the example's direct loop and mpt_parse_node into a populated root.  "
-                    "Exploration, not proof."),
-        level_note=("trusts the stack model of open sections and the tree serialiser in harness/c08_parse.c, gcc ASan/UBSan/LSan "
+                    "flag sets, driven through mpt_parse_config, the example's direct loop and mpt_parse_node into a populated root "
+                    "(fresh and re-used parser context); 60k / 600k of the same cases through the C++ config_parser::set_format / "
+                    "parser::read with one parser object used for several reads.  Exploration, not proof."),
+        level_note=("trusts the stack model of open sections and the tree serialisers in harness/c08_parse.c / c08_cxx.cpp, gcc ASan/UBSan/LSan "
                     "(LSan scans conservatively; non-adjacent stray writes are not seen)"),
-        legs=[dict(name="c08_parse", src=["c08_parse.c"], libs=["mptcore"], batch=256, lsan=True,
+        legs=[dict(name="c08_parse", src=["c08_parse.c", "c08_gen.c"], libs=["mptcore"], batch=256, lsan=True,
                    floors={"mpt_parse_config": 200000, "mpt_parse_node": 120000, "direct-loop": 40000,
                            "family:prefix": 60000, "family:enclosed": 25000, "family:enclosed-same-char": 10000,
                            "family:separated": 30000, "family:options-only": 20000,
@@ -20,11 +21,15 @@ PROP = dict(
                            "events:section": 100000, "events:sectend": 50000, "events:option+data": 200000,
                            "state:depth>=3": 5000, "doc:with-long-token": 15000,
                            "fault:getc-error-delivered": 15000, "fault:save-refused": 5000,
-                           "state:merged-into-existing": 30000, "state:flat-section-open-at-eof": 5000})],
+                           "state:merged-into-existing": 30000, "state:flat-section-open-at-eof": 5000}),
+              dict(name="c08_cxx", src=["c08_cxx.cpp", "c08_gen.c"], libs=["mpt++", "mptio", "mptplot", "mptcore"], batch=256, lsan=True,
+                   floors={"parser::read": 60000, "config_parser::set_format": 60000, "set_format:refused": 200,
+                           "outcome:accepted": 15000, "outcome:rejected": 25000,
+                           "monitor:snapshot-compared-nonempty": 15000, "monitor:result-nodes-read": 50000})],
         rule=("case = (format string, section/option name flag sets, document bytes, getc error position or none, index of a refused "
               "save event or none, drivers run); non-trivial = mpt_parse_config delivered at least two events for the document, or "
-              "rejected it after at least 8 getc calls; distinct = 64-bit hash of format string, flags, document bytes, fault "
-              "positions and driver choices"),
+              "rejected it after at least 8 getc calls (C++ leg: a read made at least 8 getc calls); distinct = 64-bit hash of "
+              "format string, flags, document bytes, fault positions and driver choices"),
         assumptions=SAN_BASE + [
             "getc protocol: byte value, -2 at end of input, -1 on error; both are repeated on further calls",
             "path handed to the save handler: open section names (plus the option name) joined by path.sep, last byte is the "
@@ -32,5 +37,6 @@ PROP = dict(
             "termination is decided as a bound of 8*(len+8) getc+save callbacks per parse",
             "flat families (' ' separated, 'x' with identical start/end character) leave the last section open at end of input",
             "whether a getc error (-1) must make the parse fail is not asserted (counted as outcome:input-error-not-reported)",
-            "merge result of a successful mpt_parse_node into a populated root is only walked, not compared"],
+            "merge result of a successful mpt_parse_node into a populated root is only walked, not compared",
+            "a parser context / mpt::parser object may be used for a further parse after a failed one (mpt::layout does)"],
     )
